@@ -238,7 +238,7 @@ PROPS = {
         "timeout": 3000,
     },
     "C03": {
-        "lean_props": ["ZarrsModel.Props.C03", "ZarrsModel.Props.C03PackBits", "ZarrsModel.Props.C03Lossy", "ZarrsModel.Props.C03Vlen", "ZarrsModel.Props.C03Chain"],
+        "lean_props": ["ZarrsModel.Props.C03", "ZarrsModel.Props.C03PackBits", "ZarrsModel.Props.C03Lossy", "ZarrsModel.Props.C03Vlen", "ZarrsModel.Props.C03Chain", "ZarrsModel.Props.C03Fso"],
         "harness": "c03",
         "rule": "random codec chains built from metadata JSON (transpose with random order, squeeze, bytes both endians, packbits, pcodec, vlen/vlen_v2/vlen-utf8/vlen-bytes, crc32c, fletcher32, shuffle, "
                 "gzip 0-9, zstd 1-19 +-checksum, blosc x6 compressors, bz2 1-9, zlib 0-9, gdeflate 0-12) x 12 data types x shapes of rank 1-3 with size-1 dims (every 40th case a 500..9000-element chunk to "
